@@ -199,6 +199,56 @@ def _check(ctx: Ctx) -> None:
     if any(pr not in dmap for pr in CLOCK_PREFIXES):
         return
 
+    # ---- SIGMSG: the TIME_SIGNATURE event detokenise writes is a function of the token alone -- on every path through the branch
+    # its numerator / denominator are the token's two fields, or both halved (simplification); never a value left over from an
+    # earlier token
+    def _paths(stmts, nz0, target):
+        """Environments (one per path, `if`s forked) in force where `target` is reached."""
+        envs = [Normaliser(env=dict(nz0.env), atom_hook=hook)]
+        for s_ in stmts:
+            if any(x is target for x in ast.walk(s_)) and not isinstance(s_, ast.If):
+                return envs, True
+            if isinstance(s_, ast.If):
+                inb = any(x is target for y in s_.body for x in ast.walk(y))
+                ino = any(x is target for y in s_.orelse for x in ast.walk(y))
+                nxt_envs, hit = [], False
+                for e_ in envs:
+                    for blk, holds in ((s_.body, inb), (s_.orelse, ino)):
+                        sub, h = _paths(blk, e_, target)
+                        if inb or ino:
+                            if holds:
+                                nxt_envs += sub
+                                hit = hit or h
+                        else:
+                            nxt_envs += sub
+                if inb or ino:
+                    return nxt_envs, hit
+                envs = nxt_envs[:16]
+            elif isinstance(s_, (ast.Assign, ast.AugAssign)):
+                for e_ in envs:
+                    e_.run_block([s_])
+        return envs, False
+    ts_body = dmap.get("TIME_SIGNATURE") or []
+    ts_ctor = next((c for y in ts_body for c in ast.walk(y) if isinstance(c, ast.Call) and isinstance(c.func, ast.Name) and c.func.id == "Message"
+                    and enum_member(kwarg(c, "message_type"), "MessageType") == "TIME_SIGNATURE"), None)
+    if ts_ctor is None:
+        ctx.undetermined("SIGMSG", "detokenise: TIME_SIGNATURE event", "no Message(message_type=TIME_SIGNATURE, ...) in the branch: not judged")
+    else:
+        envs, hit = _paths(ts_body, Normaliser(atom_hook=hook), ts_ctor)
+        bad_paths = []
+        for e_ in envs if hit else []:
+            n_, d_ = e_.norm(kwarg(ts_ctor, "numerator")), e_.norm(kwarg(ts_ctor, "denominator"))
+            f1, f2 = Sym.atom("FIELD(1)"), Sym.atom("FIELD(2)")
+            half = Sym.const(1) * Sym.const(1)
+            raw = n_ == f1 and d_ == f2
+            halved = (n_.atoms() == {"FIELD(1)"} and d_.atoms() == {"FIELD(2)"} and n_ + n_ == f1 and d_ + d_ == f2) \
+                or (n_.canon() == "floordiv(FIELD(1),2)" and d_.canon() == "floordiv(FIELD(2),2)")        # `// 2` under the evenness guard
+            if not (raw or halved):
+                bad_paths.append(f"numerator `{n_.canon()}`, denominator `{d_.canon()}`")
+        ctx.check(hit and not bad_paths, "SIGMSG", f"detokenise: the written TIME_SIGNATURE carries the token's fields (or both halved) on each of {len(envs)} path(s)",
+                  function=fd.qualname, construct="the TIME_SIGNATURE event written by detokenise is not determined by the token's own fields on every path",
+                  message=f"{bad_paths[:2]}: a value left over from an earlier token (or a default) is written as the signature in force", file=fd.file, node=ts_ctor)
+
     def d_effect(pr):
         body = dmap[pr]
         if pr == "TIME_SIGNATURE":
